@@ -20,7 +20,7 @@ struct Node {
 fn gen_shape(ch: &mut Choices, budget: &mut usize, depth: usize, shape: u8) -> Node {
     *budget = budget.saturating_sub(1);
     let tag = ch.pick(&[0x11u16, 0x2e, 0x34, 0x13, 0x0b, 0x24, 0x39, 0x05, 0x4109, 0xffff]);
-    let palette = ch.below(8) as u8;
+    let palette = ch.below(10) as u8;
     let nchildren = if *budget == 0 || depth > 40 {
         0
     } else {
@@ -55,6 +55,8 @@ enum SibMode {
     None,
     AllParents,
     Some,
+    /// also on entries without children (legal on any entry: it then designates the very next entry)
+    Any,
 }
 
 struct ForestCase {
@@ -75,6 +77,9 @@ fn attrs_for(palette: u8, sib: Option<u16>) -> Vec<(u16, u16, i64)> {
         // the right place)
         6 => vec![(0x3a, F_DATA2, 0), (0x0b, F_INDIRECT, 0), (0x03, F_STRING, 0)],
         7 => vec![(0x1c, F_BLOCK1, 0), (0x3b, F_INDIRECT, 0), (0x0b, F_DATA1, 0)],
+        // references into a supplementary file: a fixed four bytes, eight bytes, and the offset size of the unit's format
+        8 => vec![(0x31, F_REF_SUP4, 0), (0x3a, F_DATA2, 0), (0x47, F_REF_SUP8, 0)],
+        9 => vec![(0x03, F_STRP_SUP, 0), (0x31, F_GNU_REF_ALT, 0), (0x0b, F_DATA1, 0), (0x6e, F_GNU_STRP_ALT, 0)],
         _ => vec![(0x03, F_STRP, 0), (0x3a, F_DATA2, 0), (0x49, F_REF_UDATA, 0)],
     };
     if let Some(f) = sib {
@@ -116,6 +121,9 @@ fn vals_for(ch: &mut Choices, attrs: &[(u16, u16, i64)], nids: usize) -> Vec<AV>
             (_, F_DATA1) => AV::U(ch.u8() as u64),
             (_, F_DATA2) => AV::U(ch.u16() as u64),
             (_, F_STRP) => AV::U(ch.biased(20)),
+            (_, F_REF_SUP4) => AV::U(ch.u32() as u64),
+            (_, F_REF_SUP8) => AV::U(ch.biased(48)),
+            (_, F_STRP_SUP) | (_, F_GNU_REF_ALT) | (_, F_GNU_STRP_ALT) => AV::U(ch.biased(24)),
             _ => AV::Nothing,
         })
         .collect()
@@ -126,7 +134,7 @@ fn gen_forest(ch: &mut Choices) -> ForestCase {
     let in_types = ch.chance(40);
     let nunits = 1 + ch.below(3);
     let scheme = ch.below(6) as u8;
-    let sib_mode = [SibMode::None, SibMode::AllParents, SibMode::Some][ch.below(3)];
+    let sib_mode = [SibMode::None, SibMode::AllParents, SibMode::Some, SibMode::Any][ch.below(4)];
     let sib_form = ch.pick(&[F_REF4, F_REF4, F_REF2, F_REF8, F_REF_UDATA, F_REF1, F_REF_ADDR]);
     let share_abbrevs = ch.bool();
     let mut next_id = 0usize;
@@ -170,12 +178,12 @@ fn gen_forest(ch: &mut Choices) -> ForestCase {
         fn build(n: &Node, ch: &mut Choices, abbrevs: &mut Vec<Abbrev>, next_id: &mut usize, sib_mode: SibMode, sib_form: u16, total: usize) -> DieSpec {
             let id = *next_id;
             *next_id += 1;
-            let sib = if n.has_children_flag
-                && match sib_mode {
-                    SibMode::None => false,
-                    SibMode::AllParents => true,
-                    SibMode::Some => ch.bool(),
-                } {
+            let sib = if match sib_mode {
+                SibMode::None => false,
+                SibMode::AllParents => n.has_children_flag,
+                SibMode::Some => n.has_children_flag && ch.bool(),
+                SibMode::Any => id != 0 && ch.chance(170),
+            } {
                 Some(sib_form)
             } else {
                 None
@@ -655,6 +663,7 @@ fn check_forest(f: &ForestCase, cx: &mut Ctx) -> R {
     let mut headers: Vec<UnitHeader<Rdr>> = Vec::new();
     if f.in_types {
         let dt = DebugTypes::new(&built.info, endian);
+        crate::std_iter_agrees!(dt.units(), |h: &UnitHeader<Rdr>| format!("{:?} len {}", h.offset(), h.unit_length()), "c02/units/std-iterator");
         let mut it = dt.units();
         loop {
             match it.next() {
@@ -668,6 +677,7 @@ fn check_forest(f: &ForestCase, cx: &mut Ctx) -> R {
         }
     } else {
         let di = DebugInfo::new(&built.info, endian);
+        crate::std_iter_agrees!(di.units(), |h: &UnitHeader<Rdr>| format!("{:?} len {}", h.offset(), h.unit_length()), "c02/units/std-iterator");
         let mut it = di.units();
         loop {
             match it.next() {
